@@ -81,6 +81,7 @@ pub fn fail(sig: impl Into<String>, what: impl Into<String>) -> Sexp {
 }
 
 pub mod c11;
+pub mod c20;
 pub mod lw;
 pub mod c02;
 pub mod c05;
@@ -102,6 +103,7 @@ pub mod c19;
 pub fn all() -> Vec<Box<dyn Prop>> {
     vec![
         Box::new(c11::C11),
+        Box::new(c20::C20),
         Box::new(c02::C02),
         Box::new(c05::C05),
         Box::new(c09::C09),
